@@ -1235,6 +1235,22 @@ func (x *Exec) checkInvs(ls *LoopSpec, st *State, kind string, ord int, pos toke
 			}()
 			env.bound = nil
 			if ok {
+				// the invariant assumed at the loop head, instantiated at the same skolem constants (a ground instance of
+				// an assumed universal fact: e-matching cannot see through the store() terms of the new state)
+				if ls.headState != nil {
+					func() {
+						defer func() {
+							if r := recover(); r != nil {
+								if _, isSF := r.(specFailure); !isSF {
+									panic(r)
+								}
+							}
+						}()
+						henv := x.specEnv(ls.headState, ls.headPos)
+						henv.bound = bound
+						x.c.assume(ls.headState.pc, henv.evalBool(q.Body))
+					}()
+				}
 				o := x.c.oblige(kind, fmt.Sprintf(":L%d#%d%s", ord, k+1, x.pathTag), st.pc, goal, pos, inv.Text)
 				o.Split = cases
 				continue
@@ -1276,6 +1292,7 @@ func (x *Exec) assumeInvs(ls *LoopSpec, st *State, pos token.Pos) {
 		return
 	}
 	env := x.specEnv(st, pos)
+	ls.headState, ls.headPos = st, pos
 	for _, inv := range ls.Invs {
 		x.c.assume(st.pc, env.evalBool(inv.E))
 	}
